@@ -531,8 +531,51 @@ def run_lex_flags(res, prop, tier):
     shutil.rmtree(d, ignore_errors=True)
 
 
+def startup(res, prop, seed, thorough=False):
+    """C14's last clause on the code that is generated: compiled parsers, one per serialisation format
+    (x yacc kind), reconstitute their embedded grammar and table at start-up and must then parse every
+    input like the parser built from the originals (the run-time side)"""
+    rng = random.Random(seed * 53 + 5)
+    pairs = []
+    for k, kind in enumerate(["grmtools", "original_generic", "original_noaction", "original_useraction"][:(4 if thorough else 2)]):
+        for sf in ("fixed", "variable"):
+            p = long_pair()
+            p.update(id="pser_%s_%s" % (kind, sf), kind=kind)
+            p["opts"] = dict(p["opts"], sformat=sf, recoverer=["cpctplus", "none"][k % 2])
+            pairs.append(p)
+    inputs = {p["id"]: gen_inputs(p, rng, 10) for p in pairs}
+    d = os.path.join(res.wd, "ctgen")
+    gen_crate(d, pairs, inputs)
+    b = subprocess.run(["cargo", "build", "--offline", "--quiet"], cwd=d, env=dict(os.environ, CARGO_NET_OFFLINE="true"),
+                       stdout=subprocess.PIPE, stderr=subprocess.STDOUT, text=True)
+    if b.returncode != 0:
+        res.violation("the generated parsers did not build: " + b.stdout[-800:], dict(seed=seed))
+        return
+    exe = os.path.join(res.wd, "ctgen-bin")
+    shutil.copy(os.path.join(core.HARNESS, "target", "debug", "ctgen"), exe)
+    r = subprocess.run([exe], cwd=d, stdout=subprocess.PIPE, stderr=subprocess.PIPE, text=True, timeout=600)
+    lines = [x + "\n" for x in r.stdout.splitlines() if x.startswith('{"ev":"ctrt"')]
+    if r.returncode != 0:
+        res.violation("a generated parser crashed while reconstituting its tables / parsing: " + r.stderr[-600:], dict(seed=seed))
+    res.notes["generated_startup"] = dict(parsers=len(pairs), formats=["fixed", "variable"], results=len(lines))
+    if lines:
+        v = p_src.validate(res, "TraceCTRT", 2, lines, dict(PROP=prop))
+        res.add_tlc(v["r"])
+        for dv in v["devs"]:
+            dv["prop"] = prop
+            res.deviation(dv, dict(seed=seed, what="a generated parser (tables reconstituted at start-up) differs from the parser built from the originals"))
+        res.cov["traces_validated_against_impl"] += len(lines)
+    shutil.rmtree(d, ignore_errors=True)
+
+
 def main(pid, tier, replay=None):
     res = core.Result(pid, "translation_validation", tier)
+    if replay:
+        with open(replay) as f:
+            if "history" in json.load(f):
+                from . import p_ct
+                p_ct.run(res, pid, tier, replay)
+                return res.finish()
     seed = core.seed()
     rng = random.Random(seed * 29 + 13)
     core.build_harness()
@@ -594,4 +637,9 @@ def main(pid, tier, replay=None):
         res.sample(dict(id=p["id"], kind=p["kind"], opts=p["opts"], y=render_pair(p)[0]))
     res.assumptions += ["rustc compiles the generated modules faithfully", "the RT side's behaviour is itself validated by the checks of C05-C09"]
     shutil.rmtree(d, ignore_errors=True)
+    if not replay:
+        # the module left in place by a build over a used output directory is the module validated
+        # above: the one a clean build generates (shared with C18: lib/p_ct.py, TraceCT.tla)
+        from . import p_ct
+        p_ct.run(res, pid, tier)
     return res.finish()
